@@ -22,7 +22,8 @@ def row_loop(E):
     for H, L in E.loops.items():
         if L.opaque or not L.iter or L.iter[0] != 'range':
             continue
-        if norm(L.iter[1]) == ('k', 0) and common.is_call_to(L.iter[2], 'DenseMatrix::rows') and any(isinstance(v, Ptr) for v in L.carried.values()) and any(isinstance(v, Vec) for v in L.carried.values()):
+        lo = norm(L.iter[1])
+        if lo[0] == 'k' and isinstance(lo[1], int) and common.is_call_to(L.iter[2], 'DenseMatrix::rows') and any(isinstance(v, Ptr) for v in L.carried.values()) and any(isinstance(v, Vec) for v in L.carried.values()):
             return H
     return None
 
@@ -42,14 +43,30 @@ def check_data_ptr(E, H, probs, e):
     u = K.ptr_update(E, H, p)
     if u is None or list(u.values()) != [Fraction(e)] or 'DenseMatrix::stride' not in list(u)[0]:
         probs.append(f'data pointer advances by {X.lin_str(u) if u else None} bytes per row, expected stride*{e}')
-    if not (norm(L.iter[1]) == ('k', 0)):
-        probs.append('row loop does not start at row 0')
+    # rows visited: the pointer starts at row r0 and is read before it advances, for rows() - lo iterations: rows r0 .. r0 + rows - lo.
+    # They must be exactly lo .. rows (rows below lo have to be covered by the initial accumulators: see first_row_init)
+    lo = norm(L.iter[1])[1]
+    r0 = None
+    if not ini.off:
+        r0 = 0
+    elif u is not None and len(ini.off) == 1 and list(ini.off) == list(u) and list(u.values())[0] != 0:
+        q = list(ini.off.values())[0] / list(u.values())[0]
+        r0 = int(q) if q.denominator == 1 else None
+    if r0 is None:
+        probs.append(f'data pointer starts at offset {X.lin_str(ini.off)}, not at a whole row')
+    elif r0 != lo:
+        probs.append(f'the row loop runs {"rows" if lo == 0 else f"rows - {lo}"} times from row {r0}: it reads rows {r0}..rows{"" if r0 == lo else f" - {lo - r0}" if lo > r0 else f" + {r0 - lo}"}, '
+                     f'not rows {lo}..rows ({"the last row(s) are never compared" if r0 < lo else "it reads past the last row"})')
+    if lo not in (0, 1):
+        probs.append(f'row loop starts at row {lo}')
     return p, ini
 
 
 def is_lower_bound(t, w, op, ini_ptr):
     """Is constant/loaded lane t a lower bound for the reduction `op`?"""
     if op in ('max_u8',):
+        if isinstance(t, tuple) and t[0] == 'ld' and ini_ptr is not None and t[1][0] == ini_ptr.base:
+            return True, 'first row of the matrix'
         return t == ('k', 0) or t == ('kw', 1, 0), 'u8 minimum 0'
     if op == 'max_f32' or op == 'f32':
         if isinstance(t, tuple) and t[0] == 'kf' and t[1] == float('-inf'):
@@ -122,6 +139,11 @@ def check_max(db, ctx, path, w, op):
             col = (parse_off(c[0][1]) + c[1]) // w
             cols[(l, q)] = col
             okb, why = is_lower_bound(lane(v, q, w), w, op, ini)
+            if okb and norm(L.iter[1]) == ('k', 1):
+                # rows 1.. are compared in the loop: row 0 must be the initial value of the lane, at the lane's own column
+                c0 = col_of(lane(v, q, w), w)
+                if not (why == 'first row of the matrix' and c0 is not None and parse_off(c0[0][1]) is not None and (parse_off(c0[0][1]) + c0[1]) // w == col):
+                    okb, why = False, f'{why} while the loop starts at row 1 (row 0 of column {col} is never compared)'
             if not okb:
                 bad_init.append((l, q, why))
     if bad_init:
@@ -809,6 +831,14 @@ def r7_generic(db, ctx):
         cs = {fm[0].callee_short(t) for _, t in fm[0].calls()}
         okm = 'lightmotif::pli::Maximum::argmax' in cs and 'core::option::Option::map' in cs
         (ctx.ok if okm else ctx.fail)('R7.4', fm[0], 'generic max = argmax().map(|c| matrix[c])', *([[]] if okm else ['max does not derive from argmax']))
+
+
+def block_maximum(db, ctx):
+    """The 8-bit maximum the scanner uses to decide whether a block can be skipped (`pipeline.max(&dscores) >= t`): AVX2 kernel and generic default."""
+    ctx.rule('R7.1', 'reduction identity and row / column coverage of the 8-bit maximum kernel')
+    ctx.rule('R7.4', 'generic argmax keeps (row, col, value) together; generic max reads the cell at argmax')
+    check_max(db, ctx, AVX2 + 'max_u8_avx2', 1, 'max_u8')
+    r7_generic(db, ctx)
 
 
 def run(db, ctx):
